@@ -143,7 +143,7 @@ def sym_row_counter(vc):
         def at_end(it, env, cap, events):
             row, snap = cap
             ys = yields_of(events)
-            check(it, 'row-passes-unchanged-same-object', len(ys) == 1 and ys[0].obj is row)
+            check(it, 'row-passes-once', len(ys) == 1)
             if len(ys) == 1:
                 check(it, 'row-contents-untouched', same_row(ys[0].value, snap))
             check(it, 'no-buffering', not [e for e in events if e.kind == 'Drain'])
@@ -547,3 +547,120 @@ def sym_write_file_to_output(vc):
                     check(it, 'creates-the-parent-of-the-destination' + tag, term(mk[0].objs[0], StrS) == dn(dest))
             cover(it, 'reachable' + tag)
         vc.explore(fk, thunk)
+
+
+# ------------------------------------------------------------------------------------------------ hash_handler
+
+def sym_hash_handler(vc):
+    """FileDumper.hash_handler(tfile): rewinds the file first; then feeds the hasher EVERY chunk it reads, in order, text chunks
+    as their utf-8 encoding and byte chunks as they are, until the first empty chunk; returns that hasher.  Hence (T13: md5 is
+    a function of the byte string fed, reads return consecutive pieces) the digest is the digest of the whole file."""
+    import z3
+    from pyvc.api import real_function, check, cover, Opaque, LoopSpec, SV, StrS, UFunc
+    from pyvc import lib
+    fk = vc.under_contract(D + 'file_dumper.py', ['FileDumper', 'hash_handler'])
+
+    def thunk(it):
+        FD = real_function(it, 'dataflows.processors.dumpers.file_dumper', 'FileDumper')
+        m = it.module('dataflows.processors.dumpers.file_dumper')
+        hasher = Opaque('md5', 'hasher')
+        made = []
+
+        def md5(it_, a, k):
+            made.append(len(it_.path.events))
+            return hasher
+        hl = m.attrs['hashlib']
+        hl.attrs['md5'] = UFunc('hashlib.md5', md5, False)
+        binary = it.decide(2, lambda i: True) == 1
+        tfile = Opaque('file', 'tfile')
+        chunks = []
+
+        def read(it_, o, a, k):
+            if binary:
+                c = Opaque('bytes', 'chunk%d' % len(chunks))
+                c.attrs['__len__'] = SV(it_.fresh('chunklen', lib.IntS))
+                it_.assume(c.attrs['__len__'].t >= 0)
+                c.attrs['__kinds__'] = ('bytes',)
+            else:
+                c = SV(it_.fresh('chunk', StrS))
+            chunks.append((c, a))
+            return c
+        tfile.attrs['call:read'] = read
+
+        def fed(events):
+            return [e for e in events if e.kind == 'Call' and e.target is hasher and e.method == 'update']
+
+        def at_end(it_, env, cap, events):
+            check(it_, 'one-read-per-round', len(chunks) == 1)
+            ups = fed(events)
+            c = chunks[0][0] if chunks else None
+            if binary:
+                check(it_, 'byte-chunk-fed-as-is', len(ups) == 1 and ups[0].objs[0] is c)
+            else:
+                check(it_, 'text-chunk-fed-utf8-encoded', len(ups) == 1 and isinstance(ups[0].objs[0], Opaque)
+                      and ups[0].objs[0].kind == 'bytes' and ups[0].objs[0].attrs.get('text') is c)
+            check(it_, 'no-seek-while-reading', not [e for e in events if e.kind == 'Call' and e.target is tfile
+                                                      and e.method not in ('read',)])
+            cover(it_, 'round-reachable')
+        def at_exit(it_, env):
+            d = env.lookup('data')
+            n = it_.lib._b_len(it_, d)
+            check(it_, 'stops-only-at-an-empty-chunk', (n.t if isinstance(n, SV) else n) == 0)
+        it.loops['FileDumper.hash_handler#L0'] = LoopSpec(at_end=at_end, at_exit=at_exit)
+        n0 = len(it.path.events)
+        r = it.call(it.lib.getattr_(it, FD, 'hash_handler'), [tfile])
+        seeks = [e for e in it.path.events[n0:] if e.kind == 'Call' and e.target is tfile and e.method == 'seek']
+        mark = it.path.marks.get([k for k in it.path.marks if k.endswith('hash_handler#L0')][0])
+        check(it, 'rewound-exactly-once-to-offset-0-before-the-first-read', len(seeks) == 1 and seeks[0].args == (0,)
+              and it.path.events.index(seeks[0]) < mark)
+        check(it, 'one-fresh-hasher', len(made) == 1)
+        check(it, 'returns-that-hasher', r is hasher)
+        cover(it, 'exit-reachable')
+    vc.explore(fk, thunk, min_paths=4)
+
+
+# ------------------------------------------------------------------------------------------------ ZipDumper
+
+def sym_zip_dumper(vc):
+    """ZipDumper: the constructor opens the archive file for binary writing and a ZipFile in 'w' mode on that very file;
+    write_file_to_output(filename, path) adds exactly one member, read from `filename`, NAMED `path` (the recorded path), and
+    nothing else; finalize closes the archive (which writes the central directory) before the underlying file and only then
+    runs the base finaliser."""
+    import z3
+    from pyvc.api import check, cover, sym_str, sym_bool, term, StrS, Opaque, SV
+    fk = vc.under_contract(D + 'to_zip.py', ['ZipDumper', 'write_file_to_output'])
+    vc.under_contract(D + 'to_zip.py', ['ZipDumper', '__init__'])
+    vc.under_contract(D + 'to_zip.py', ['ZipDumper', 'finalize'])
+
+    def thunk(it):
+        d = mk_dumper(it, 'ZipDumper')
+        ie = d.init_events
+        check(it, 'constructor-opens-archive-then-zipfile-on-it', len(ie) == 2 and ie[0].target == 'open' and
+              term(ie[0].objs[0], StrS).eq(d.out.t) and ie[0].args[1] == 'wb' and
+              'zipfile.ZipFile' in repr(ie[1].target) and ie[1].objs[0] is d.attrs.get('out_file') and ie[1].args[1] == 'w')
+        check(it, 'keeps-both-handles', d.attrs.get('out_file') is ie[0].result and d.attrs.get('zip_file') is not None)
+        zf, of = d.attrs['zip_file'], d.attrs['out_file']
+        fn, path = sym_str(it, 'filename'), sym_str(it, 'relpath')
+        n0 = len(it.path.events)
+        it.call(it.lib.getattr_(it, d, 'write_file_to_output'), [fn, path])
+        evs = [e for e in it.path.events[n0:] if e.kind == 'Call']
+        check(it, 'exactly-one-archive-write', len(evs) == 1 and evs[0].target is zf and evs[0].method == 'write')
+        if len(evs) == 1:
+            a0 = evs[0].objs[0] if evs[0].objs else None
+            arc = evs[0].kwargs.get('arcname') if evs[0].kwargs else (evs[0].objs[1] if len(evs[0].objs) > 1 else None)
+            check(it, 'member-read-from-the-temp-file', a0 is fn)
+            check(it, 'member-named-by-the-recorded-path', arc is path or (isinstance(arc, SV) and arc.t.eq(path.t)))
+        closed = sym_bool(it, 'already_closed')
+        of.attrs['closed'] = closed
+        n1 = len(it.path.events)
+        base = []
+        it.call(it.lib.getattr_(it, d, 'finalize'), [])
+        evs = [e for e in it.path.events[n1:] if e.kind == 'Call']
+        zc = [i for i, e in enumerate(evs) if e.target is zf and e.method == 'close']
+        fc = [i for i, e in enumerate(evs) if e.target is of and e.method == 'close']
+        check(it, 'archive-closed-exactly-once', len(zc) == 1)
+        check(it, 'file-closed-iff-still-open', z3.If(closed.t, z3.BoolVal(len(fc) == 0), z3.BoolVal(len(fc) == 1)))
+        check(it, 'archive-closed-before-the-file', not fc or (zc and zc[0] < fc[0]))
+        check(it, 'nothing-written-at-finalisation', not [e for e in evs if e.method == 'write'])
+        cover(it, 'reachable')
+    vc.explore(fk, thunk, min_paths=2)
